@@ -14,6 +14,13 @@ Loaders load any bundled version or a version list (one model `load v` per `_loa
 `get_library_data` runs against the library_data sub-folder (a `peek` / `populate` / `refresh 0` sequence of
 the model); the timestamp write is two primitives (truncate, write).
 
+Every primitive has two pause points: before its system call and right after it returned (before any
+user-space continuation: flush, close, next statement), so a kill or a context switch "inside" a copy - e.g.
+after the rename and before a buffered writer is closed - is a schedule.  Reads (timestamp, cache file) are
+open+read in one primitive; what is hashed is what is served.  Each process reaches the cache directory by its
+real path or through a symlink to it (`alias`).  Static ties: the source-level file-name pattern accepts all
+bundled names and no temporary name; `_check_if_url` = `Cache.checkIfUrl` on generated strings.
+
 Direct oracle = the property on the implementation's observables (loader outcome + hash of what it
 read, final files vs bundled bytes, overlap of `with CacheLock` intervals, the CacheException branch,
 the refresh interval).  Model comparison = the realised schedule is replayed on `Cache.safe`
@@ -22,6 +29,7 @@ are compared.
 """
 import ast
 import hashlib
+import io
 import itertools
 import json
 import os
@@ -52,6 +60,17 @@ THEOREMS = [
     "HedVerif.C19.peek_no_torn",
     "HedVerif.C19.current_timestamp_counterexample",
     "HedVerif.C19.current_direct_read_counterexample",
+    "HedVerif.C19.lock_excludes_per_directory",
+    "HedVerif.C19.pathlock_counterexample",
+    "HedVerif.C19.copy_order",
+    "HedVerif.C19.rename_only_after_complete",
+    "HedVerif.C19.buffered_tail_counterexample",
+    "HedVerif.C19.listed_versions_are_final_files",
+    "HedVerif.C19.unanchored_counterexample",
+    "HedVerif.C19.load_uses_cache_or_bundled",
+    "HedVerif.C19.refresh_not_skipped_outside",
+    "HedVerif.C19.checkIfUrl_spec",
+    "HedVerif.C19.checkIfUrl_abs",
 ]
 BUDGET = {"quick": 600, "thorough": 2400}
 
@@ -75,6 +94,19 @@ def source_constants(repo):
                 if kw.arg == "timeout":
                     timeout = ast.literal_eval(kw.value)
     return thr, timeout
+
+
+def version_pattern_source(repo):
+    """HED_VERSION_FINAL of hed_cache.py, evaluated from the source (string constants and their concatenations)"""
+    tree = ast.parse((repo / "hed/schema/hed_cache.py").read_text())
+    vals = {}
+    for node in tree.body:
+        if isinstance(node, ast.Assign) and len(node.targets) == 1 and isinstance(node.targets[0], ast.Name):
+            try:
+                vals[node.targets[0].id] = eval(compile(ast.Expression(node.value), "<const>", "eval"), {}, dict(vals))
+            except Exception:
+                pass
+    return vals.get("HED_VERSION_FINAL")
 
 
 # ----------------------------------------------------------------------------- environment of one run
@@ -164,6 +196,8 @@ def _child(pid, proc, spec, cache, chan):
     env = ENV
     bundle_dir, order = env.bundles[spec["bundle"]]
     cache_root = os.path.realpath(cache)
+    # the path this process uses for the directory: its real path or a symlink to it
+    cache_arg = cache_root if not proc.get("alias") else os.path.join(os.path.dirname(cache_root), "cache_alias")
     cache = os.path.join(cache_root, "library_data") if spec["bundle"] == "lib" else cache_root
     libdata = proc["kind"] == "libdata"
     ts_file = os.path.join(cache, hed_cache_lock.TIMESTAMP_FILENAME)
@@ -173,6 +207,13 @@ def _child(pid, proc, spec, cache, chan):
 
     def prim(what, i=-1, j=-1):
         chan.send(["P", what, i, j])
+        if chan.recv() == "c":
+            os._exit(77)
+
+    def post():
+        """pause again right after the system call has returned, before any user-space continuation (flushes,
+        closes, the next statement): a kill or a context switch here is 'inside' the primitive's caller"""
+        chan.send(["Q"])
         if chan.recv() == "c":
             os._exit(77)
 
@@ -204,23 +245,43 @@ def _child(pid, proc, spec, cache, chan):
         if p is not None:
             if p == ts_file:
                 if "r" in mode:
-                    prim("readTs")
+                    prim("readTs")   # open + read as one primitive: the content is what the file holds now
+                    try:
+                        with real_open(file, mode, *a, **k) as f:
+                            return io.StringIO(f.read())
+                    finally:
+                        post()
                 else:   # _write_last_cached_time: open(..., 'w') truncates, the number is written afterwards
                     prim("truncTs")
-                    return _TsFile(real_open(file, mode, *a, **k))
+                    try:
+                        return _TsFile(real_open(file, mode, *a, **k))
+                    finally:
+                        post()
             elif p == lock_file:
                 prim("openLock")
             elif "r" in mode and "+" not in mode:
                 if libdata:
                     note("seg", "peek", os.path.basename(p))
-                prim("read", idx_of(p))
+                prim("read", idx_of(p))   # open + read as one primitive (what is served is what is hashed)
                 try:
-                    with real_open(p, "rb") as f:
-                        note("readhash", "cache", hashlib.sha1(f.read()).hexdigest(), os.path.basename(p))
-                except OSError:
-                    note("readhash", "cache", None, os.path.basename(p))
+                    try:
+                        with real_open(p, "rb") as f:
+                            data = f.read()
+                    except OSError:
+                        note("readhash", "cache", None, os.path.basename(p))
+                        raise
+                    note("readhash", "cache", hashlib.sha1(data).hexdigest(), os.path.basename(p))
+                    if "b" in mode:
+                        return io.BytesIO(data)
+                    return io.StringIO(data.decode(k.get("encoding") or "utf-8"))
+                finally:
+                    post()
             else:
                 prim("create", idx_of(p))
+            try:
+                return real_open(file, mode, *a, **k)
+            finally:
+                post()
         elif isinstance(file, (str, os.PathLike)) and os.path.dirname(os.path.abspath(file)) == bundle_dir \
                 and "r" in mode:
             with real_open(file, "rb") as f:
@@ -233,9 +294,12 @@ def _child(pid, proc, spec, cache, chan):
 
         def write(self, data):
             prim("writeTs")
-            r = self.f.write(data)
-            self.f.flush()
-            return r
+            try:
+                r = self.f.write(data)
+                self.f.flush()
+                return r
+            finally:
+                post()
 
         def __enter__(self):
             return self
@@ -251,7 +315,10 @@ def _child(pid, proc, spec, cache, chan):
         p = os.path.realpath(os.fspath(path))
         if p == cache:
             prim("list")
-            return sorted(real_listdir(path))
+            try:
+                return sorted(real_listdir(path))
+            finally:
+                post()
         if p == bundle_dir:
             return list(order) + ([] if spec["bundle"] == "lib" else ["library_data"])
         return real_listdir(path)
@@ -259,11 +326,19 @@ def _child(pid, proc, spec, cache, chan):
     def w_exists(path):
         if in_cache(path) is not None:
             prim("exists", idx_of(path))
+            try:
+                return real_exists(path)
+            finally:
+                post()
         return real_exists(path)
 
     def w_mkstemp(suffix=None, prefix=None, dir=None, text=False):
         if dir is not None and os.path.realpath(dir) == cache:
             prim("mktemp", idx_of(os.path.join(cache, (prefix or "") + "x")))
+            try:
+                return real_mkstemp(suffix=suffix, prefix=prefix, dir=dir, text=text)
+            finally:
+                post()
         return real_mkstemp(suffix=suffix, prefix=prefix, dir=dir, text=text)
 
     def chunked_copy(src, dst, *a, **k):
@@ -279,16 +354,30 @@ def _child(pid, proc, spec, cache, chan):
         tmp_index[os.path.basename(dst)] = i
         bounds = [len(data) * c // env.chunks for c in range(env.chunks + 1)]
         prim("create", i)
-        fd = os.open(dst, os.O_WRONLY | os.O_CREAT | os.O_TRUNC, 0o644)
+        try:
+            fd = os.open(dst, os.O_WRONLY | os.O_CREAT | os.O_TRUNC, 0o644)
+        finally:
+            post()
         for j in range(env.chunks):
             prim("append", i, j)
-            os.pwrite(fd, data[bounds[j]:bounds[j + 1]], bounds[j])
-        os.close(fd)
+            try:
+                os.pwrite(fd, data[bounds[j]:bounds[j + 1]], bounds[j])
+            finally:
+                post()
+        prim("close", i)
+        try:
+            os.close(fd)
+        finally:
+            post()
         return dst
 
     def w_replace(src, dst, **k):
         if in_cache(dst) is not None:
             prim("rename", idx_of(dst))
+            try:
+                return real_replace(src, dst, **k)
+            finally:
+                post()
         return real_replace(src, dst, **k)
 
     held = [False]
@@ -297,15 +386,21 @@ def _child(pid, proc, spec, cache, chan):
         prim("tryLock")
         try:
             real_lock(fh, flags)
+            held[0] = True
         except BaseException as e:
             note("lock-failed", type(e).__name__)
             raise
-        held[0] = True
+        finally:
+            post()
 
     def w_unlock(fh):
         if held[0]:
             prim("unlock")
             held[0] = False
+            try:
+                return real_unlock(fh)
+            finally:
+                post()
         return real_unlock(fh)
 
     clock = [0.0]
@@ -369,7 +464,7 @@ def _child(pid, proc, spec, cache, chan):
     hed_schema_io._load_schema_version_sub = sub
     tempfile.tempdir = os.path.join(os.path.dirname(cache_root), "systmp")   # downloads of a killed refresh stay in the scratch
     hed_cache.INSTALLED_CACHE_LOCATION = env.installed[spec["bundle"]]
-    hed_cache.HED_CACHE_DIRECTORY = cache_root
+    hed_cache.HED_CACHE_DIRECTORY = cache_arg
     hed_schema_io._load_schema_version.cache_clear()
     hed_cache.get_library_data.cache_clear()
 
@@ -377,7 +472,7 @@ def _child(pid, proc, spec, cache, chan):
     try:
         kind = proc["kind"]
         if kind == "populate":
-            out["ret"] = hed_cache.cache_local_versions(cache)
+            out["ret"] = hed_cache.cache_local_versions(cache_arg)
         elif kind == "load":
             from hed import load_schema_version
             sch = load_schema_version(proc["ver"])
@@ -388,9 +483,9 @@ def _child(pid, proc, spec, cache, chan):
         elif kind == "refresh":
             urls = ["file://" + os.path.join(env.remote, f"lib{k}") for k in range(proc["arg"])]
             libs = ["file:///nonexistent-hedverif-remote"] if proc.get("badlib") else []
-            out["ret"] = hed_cache.cache_xml_versions(hed_base_urls=urls, hed_library_urls=libs, cache_folder=cache)
+            out["ret"] = hed_cache.cache_xml_versions(hed_base_urls=urls, hed_library_urls=libs, cache_folder=cache_arg)
         elif kind == "libdata":
-            out["data"] = hed_cache.get_library_data(proc.get("lib", "score"), cache_root)
+            out["data"] = hed_cache.get_library_data(proc.get("lib", "score"), cache_arg)
             out["class"] = "ok"
     except BaseException as e:  # noqa
         out["class"] = "error"
@@ -433,6 +528,7 @@ def simulate(spec):
     scratch = tempfile.mkdtemp(prefix="hedverif_c19_")
     cache_root = os.path.join(scratch, "cache")
     os.makedirs(cache_root)
+    os.symlink(cache_root, os.path.join(scratch, "cache_alias"))   # a second name for the same directory
     cache = os.path.join(cache_root, "library_data") if spec["bundle"] == "lib" else cache_root
     os.makedirs(os.path.join(scratch, "systmp"))
     kids, log, trace, actions = [], [], [], []
@@ -462,6 +558,9 @@ def simulate(spec):
             elif m[0] == "P":
                 k.state, k.pending = "pending", m[1:]
                 return
+            elif m[0] == "Q":   # the system call of the last primitive has returned; nothing else has run yet
+                k.state = "post"
+                return
             elif m[0] == "D":
                 k.state, k.outcome = "done", m[1]
                 os.waitpid(k.ospid, 0)
@@ -485,10 +584,17 @@ def simulate(spec):
 
     def do(pid):
         k = kids[pid]
-        if k.state != "pending":
+        if k.state not in ("pending", "post"):
             return False
         crash = spec.get("crash") or {}
         ck = crash.get(str(pid), crash.get(pid))
+        segmented = spec["procs"][pid]["kind"] in ("load", "libdata")
+        if k.state == "post" and (segmented or ck is None or ck != k.nprims):
+            os.write(k.wfd, b"g\n")   # let the caller continue up to its next primitive (or its end)
+            pump(k)
+            if k.state != "pending":
+                return False
+        # a kill `crash[pid] = n` hits the process right after its n-th system call returned (n = 0: before the first)
         if ck is not None and ck == k.nprims:
             k.state = "crashing"
             os.write(k.wfd, b"c\n")
@@ -570,7 +676,7 @@ def simulate(spec):
                "procs": [{"state": k.state, "outcome": k.outcome, "nprims": k.nprims} for k in kids]}
     finally:
         for k in kids:
-            if k.state in ("pending", "starting", "crashing"):
+            if k.state in ("pending", "post", "starting", "crashing"):
                 try:
                     os.kill(k.ospid, signal.SIGKILL)
                     os.waitpid(k.ospid, 0)
@@ -604,8 +710,8 @@ def regions(log):
                 if q != pid:
                     overlaps.append([q, pid, pos])
             active[pid] = pos
-        elif what in ("exit", "crash"):
-            active.pop(pid, None)
+        elif what in ("exit", "crash") or (what == "step" and len(e) > 2 and e[2] == "unlock"):
+            active.pop(pid, None)   # the flock is gone once the unlock call has returned, `__exit__` returns later
     return overlaps
 
 
@@ -720,7 +826,8 @@ def model_procs(spec, obs):
 
 def model_request(spec, obs, cfg):
     return {"op": "c19.run", "proto": "safe", "cfg": cfg,
-            "procs": [{"kind": p["kind"], "arg": p["arg"], "now": p["now"]} for p in model_procs(spec, obs)],
+            "procs": [{"kind": p["kind"], "arg": p["arg"], "now": p["now"],
+                       "alias": spec["procs"][p["real"]].get("alias", 0)} for p in model_procs(spec, obs)],
             "sched": obs["mactions"]}
 
 
@@ -779,7 +886,7 @@ def model_view(spec, obs, ans, cfg):
         elif proc["kind"] == "peek" and mp["status"] == "finished":
             got = "absent" if mp["got"] == "notFound" else \
                 ("bundled" if isinstance(mp["got"], list) and mp["got"] == [proc["arg"], full] else "bad")
-        procs.append({"status": mp["status"], "err": mp["err"], "got": got})
+        procs.append({"status": mp["status"], "err": mp["err"], "got": got, "pc": mp["pc"]})
     return {"trace": [t for t in ans["trace"] if t[1] != "crash"],
             "finals": sorted([f[0], bool(f[2])] for f in ans["finals"]),
             "tmps": sorted(_tmp_view(t[1], t[2][1]) for t in ans["tmps"]),
@@ -805,6 +912,18 @@ def views_differ(iv, mv):
                 or (a[1] == "append" and a[3] != b[3]):
             diffs.append(f"primitive {a} vs model {b}")
             break
+    mprocs = []
+    for ip, mp in zip(iv["procs"], mv["procs"]):
+        mp = dict(mp)
+        # a kill right after the last system call (unlock) of a process: dead for the OS, finished for the model
+        # a kill right after the LAST system call of a process (its unlock, or its last failed lock attempt): dead
+        # for the OS before it could return, already finished for the model (the kill is a no-op there)
+        if ip["status"] == "crashed" and mp["status"] == "finished" and mp.get("pc") in ("unlock", "tryLock", "readTs"):
+            mp["status"] = "crashed"
+            mp["err"] = ip["err"]
+        mp.pop("pc", None)
+        mprocs.append(mp)
+    mv = dict(mv, procs=mprocs)
     for key in ("finals", "tmps", "lockFile", "tsTorn", "overlap", "torn_seen", "procs"):
         if iv[key] != mv[key]:
             diffs.append(f"{key}: {iv[key]} vs model {mv[key]}")
@@ -820,18 +939,19 @@ def views_differ(iv, mv):
 
 # ----------------------------------------------------------------------------- schedules
 
-def P(kind, arg=0, now=T0):
-    return {"kind": kind, "arg": arg, "now": now}
+def P(kind, arg=0, now=T0, alias=0):
+    """alias 1 = the process reaches the cache directory through a symlink to it"""
+    return {"kind": kind, "arg": arg, "now": now, "alias": alias}
 
 
-def L(ver, now=T0):
+def L(ver, now=T0, alias=0):
     """loader of a version string ('8.3.0', 'score_2.0.0') or a list (['8.3.0', 'sc:score_2.0.0'])"""
-    return {"kind": "load", "ver": ver, "arg": 0, "now": now}
+    return {"kind": "load", "ver": ver, "arg": 0, "now": now, "alias": alias}
 
 
-def LD(lib="score", now=T0):
+def LD(lib="score", now=T0, alias=0):
     """hed_cache.get_library_data(lib, cache) - the library_data sub-folder of the cache"""
-    return {"kind": "libdata", "arg": 0, "now": now, "lib": lib}
+    return {"kind": "libdata", "arg": 0, "now": now, "lib": lib, "alias": alias}
 
 
 def ver_of(name):
@@ -850,6 +970,12 @@ def canonical_specs(vers):
     v0, v1, v2 = vers
     return [
         spec_of("small", [P("populate"), P("populate")], script=[0, 0, 0, 0, 1, 1, 1, 1], order=[0, 1], tag="two-holders"),
+        # the same directory under two names (real path / symlink): still one lock
+        spec_of("small", [P("populate"), P("populate", alias=1)], script=[0, 0, 0, 0, 1, 1, 1, 1], order=[0, 1], tag="two-holders-aliased"),
+        spec_of("small", [P("populate", alias=1), P("populate"), L(v0, alias=1)], script=[0] * 6 + [1] * 4 + [2] * 3, order=[1, 2, 0],
+                tag="two-holders-aliased"),
+        spec_of("small", [P("refresh", 1, T0, alias=1), P("populate", 0, T0 + 3600), L(v1)], script=[0] * 5 + [1] * 4, order=[1, 0, 2],
+                tag="two-holders-aliased"),
         spec_of("small", [P("populate"), P("populate"), L(v0)], order=[0, 1, 2], crash={0: 7}, tag="killed-mid-copy"),
         spec_of("small", [P("populate"), P("populate"), L(v0)], order=[0, 1, 2], crash={0: 4}, tag="killed-mid-copy"),
         spec_of("small", [P("populate"), L(v2), P("populate")], order=[0, 1, 2], crash={0: 10}, tag="killed-mid-copy"),
@@ -972,6 +1098,32 @@ def run(ctx):
         names = ENV.all_names
         small_vers = [ver_of(n) for n in SMALL]
 
+        # the tie between the model's name classes and the real file names: the (source-level) pattern of
+        # get_hed_versions accepts every bundled file name and no temporary name of either copy path
+        pat = version_pattern_source(REPO)
+        temp_like = [n + sfx for n in names for sfx in (".a1b2c3d4.tmp", ".tmp", "~", ".part")] + \
+                    ["tmpab12cd34.xml", "tmp_HED8.3.0.xml", "xHED8.3.0.xml", ".HED8.3.0.xml.swp", "HED8.3.0.xml.bak.xml2"]
+        try:
+            rx = re.compile(pat)
+            bad = [n for n in names if not rx.match(n)] + [t for t in temp_like if rx.match(t)]
+        except Exception as e_:  # noqa
+            bad = [f"pattern not usable: {e_}"]
+        ctx.obligation("version-pattern accepts final names only", not bad, "misclassified: " + ", ".join(bad[:6]))
+        ctx.count("version-pattern-names-checked", len(names) + len(temp_like))
+
+        # _check_if_url against Cache.checkIfUrl
+        urls = ["", "/", "http://", "https://", "http://x/HED8.3.0.xml", "https://raw.githubusercontent.com/a/b.xml",
+                "HTTP://x", "Https://x", "http:/x", "https:/x", "http//x", " http://x", "/http://x", "ftp://x", "file:///x",
+                "httpx://x", "httpss://x", "http", "https", "h", "C:\\cache\\HED8.3.0.xml", "./http://x", "~/.hedtools/hed_cache/"]
+        urls += [os.path.join(d_, n) for d_ in ("/tmp/hedverif/cache", "/home/u/.hedtools/hed_cache", "http:") for n in names[:4]]
+        urls += ["".join(ctx.rng.choice(["http", "https", "s", ":", "/", "//", "x", " ", "."]) for _ in range(ctx.rng.randint(1, 6)))
+                 for _ in range(200)]
+        ans_ = ctx.model.batch([{"op": "c19.isurl", "text": u} for u in urls])
+        for u, a_ in zip(urls, ans_):
+            ctx.count("isurl-compared")
+            if bool(hed_cache._check_if_url(u)) != a_["url"]:
+                ctx.disagree("Cache.checkIfUrl = hed_cache._check_if_url", {"text": u}, a_["url"], hed_cache._check_if_url(u))
+
         # reference loads: every bundled version (standard and library) and some version lists, each loaded by
         # the real code from a complete cache; a version the package itself cannot load is left out (counted)
         REFS.clear()
@@ -1030,7 +1182,8 @@ def run(ctx):
         # 2. two populates + one loader on the small bundle: all schedules with one preemption, a sample with two;
         #    the loader's version rotates over the bundle (standard, older standard, library with partner)
         def procs_for(i):
-            return [P("populate"), P("populate"), L(small_vers[i % len(small_vers)])]
+            # every other spec reaches the directory through the symlink in one populate and/or the loader
+            return [P("populate"), P("populate", alias=(i // 3) % 2), L(small_vers[i % len(small_vers)], alias=(i // 6) % 2)]
         o = evaluate(ctx, [spec_of("small", procs_for(0), order=[0, 1, 2], tag="interleave-0")] +
                      [spec_of("small", procs_for(i), order=[2, 0, 1], tag="interleave-0") for i in range(3)], cfg_for, thr, None)
         lens = [o[0]["procs"][0]["nprims"], o[0]["procs"][1]["nprims"], max(x["procs"][2]["nprims"] for x in o[1:])]
@@ -1060,6 +1213,30 @@ def run(ctx):
         evaluate(ctx, one, cfg_for, thr, pool)
         evaluate(ctx, two[:n_two], cfg_for, thr, pool)
         ctx.extra["interleave_two_switch_space"] = len(two)
+        # a populate killed right after each of its system calls, with the loader having run 0-3 of its own steps in
+        # between and the other populate / the loader finishing in either order (kill points are "inside" the
+        # primitive's caller: after the call returned, before any flush / close / next statement)
+        kc = []
+        for n1 in range(0, lens[0] + 1):
+            for m in (0, 1, 2, 3):
+                for rest in ((1, 2, 0), (2, 1, 0)):
+                    c += 1
+                    kc.append(spec_of("small", procs_for(c), script=[0] * n1 + [2] * m, order=rest, crash={0: n1},
+                                      tag="interleave-kill"))
+        evaluate(ctx, kc, cfg_for, thr, pool)
+        # three preemptions (sample)
+        three = []
+        for _ in range(250 if quick else 5000):
+            ps_ = [ctx.rng.randrange(3) for _ in range(3)]
+            script = []
+            for q_ in ps_:
+                script += [q_] * ctx.rng.randint(1, max(2, lens[q_] - 1))
+            rest = [0, 1, 2]
+            ctx.rng.shuffle(rest)
+            c += 1
+            crash = {ctx.rng.randrange(2): ctx.rng.randint(0, lens[0])} if ctx.rng.random() < 0.3 else None
+            three.append(spec_of("small", procs_for(c), script=script, order=rest, crash=crash, tag="interleave-3"))
+        evaluate(ctx, three, cfg_for, thr, pool)
 
         # 2b. get_library_data: the library_data sub-folder (own lock and timestamp, same copy path).  Every crash
         #     point of one caller followed by two more; all one-preemption schedules of two callers; random of three
@@ -1093,6 +1270,8 @@ def run(ctx):
                 [P("refresh", 1, T0), P("populate", 0, T0 + ctx.rng.choice([0, 1799, 1800])), P("populate"), L(rv())],
             ])
             n = len(kinds)
+            for k_ in kinds:
+                k_["alias"] = ctx.rng.randrange(2)
             script = [ctx.rng.randrange(n) for _ in range(ctx.rng.randint(5, 70))]
             if ctx.rng.random() < 0.5:   # bursts instead of single steps
                 script = [p for p in script[:12] for _ in range(ctx.rng.randint(1, 6))]
